@@ -45,7 +45,7 @@ def true_ranks(n, rho):
 
 
 def record(n, rho, r0, drmin, drmax, nswp=None, cache=False, m=None, none_at=None, cb_at=None,
-           seed=1, mcs=10**5, e=None, e_vld=None, vld=False, tau=1.1, return_Y=False, pre=None, zeros=False):
+           seed=1, mcs=10**5, e=None, e_vld=None, vld=False, tau=1.1, return_Y=False, pre=None, zeros=False, ydtype=None):
     """Run teneva.cross once and return the trace (cfg + events)."""
     # Seams: C._iter (row choices) and C._func (batch requests).  If a refactoring removed one of them the recorder
     # degrades instead of failing: without _iter the trace carries no iter events (validated against the count
@@ -53,6 +53,18 @@ def record(n, rho, r0, drmin, drmax, nswp=None, cache=False, m=None, none_at=Non
     has_iter, has_func = hasattr(C, '_iter'), hasattr(C, '_func')
     cores, F = make_target(n, rho, seed)
     d = len(n)
+    generic = True
+    if ydtype is not None:
+        # an objective that answers in another numeric type (float32 / float16 / int64 / bool-free ints): the target has
+        # small integer entries, exactly representable in every such type, so the objective itself is unchanged
+        rng_ = np.random.default_rng(seed + 31)
+        r_ = [1] + [rho] * (d - 1) + [1]
+        cores = [rng_.integers(1, 3, size=(r_[k], n[k], r_[k + 1])) * rng_.choice([-1, 1], size=(r_[k], n[k], r_[k + 1])) for k in range(d)]
+        F = dense([c_.astype(float) for c_ in cores])
+        tr_ = true_ranks(n, rho)
+        for k in range(1, d):
+            if np.linalg.matrix_rank(F.reshape(int(np.prod(n[:k])), -1)) != tr_[k]:
+                generic = False
     if zeros:
         # an objective that is exactly 0.0 at many indices (no exactness claim for such a target)
         F = F.copy()
@@ -71,6 +83,8 @@ def record(n, rho, r0, drmin, drmax, nswp=None, cache=False, m=None, none_at=Non
         if none:
             return None
         asked.append(I.copy())
+        if ydtype is not None:
+            return np.asarray(F[tuple(I.T)]).astype(ydtype)
         return F[tuple(I.T)]
 
     def func(f_, Ig, Ir, Ic, info, cache_):
@@ -151,7 +165,7 @@ def record(n, rho, r0, drmin, drmax, nswp=None, cache=False, m=None, none_at=Non
         if has_iter:
             C._iter = orig
 
-    shapes_ok = all(isinstance(G, np.ndarray) and G.ndim == 3 for G in Y)
+    shapes_ok = all(isinstance(G, np.ndarray) and G.ndim == 3 and G.dtype == np.float64 for G in Y)
     finite = bool(shapes_ok and all(np.isfinite(G).all() for G in Y))
     chain = shapes_ok and all(Y[k].shape[2] == Y[k + 1].shape[0] for k in range(d - 1)) \
         and Y[0].shape[0] == 1 and Y[-1].shape[2] == 1
@@ -198,9 +212,11 @@ def record(n, rho, r0, drmin, drmax, nswp=None, cache=False, m=None, none_at=Non
                    acc_ok=bool(acc <= 1e-6), acc=acc))
     cfg = dict(n=list(n), r0=[int(x) for x in teneva.ranks(Y0)], drmin=drmin, drmax=drmax,
                nswp=-1 if nswp is None else nswp, mmax=-1 if m is None else int(m), cache=bool(cache), mcs=int(mcs),
-               hasE=e is not None, hasV=e_vld is not None, rho=true_ranks(n, rho) if not zeros else [99] * (d + 1),
+               hasE=e is not None, hasV=e_vld is not None, rho=true_ranks(n, rho) if (not zeros and generic) else [99] * (d + 1),
                pre=[list(p) for p in dict.fromkeys(pre)])
     tr = dict(cfg=cfg, ev=ev, meta=dict(seed=seed, rho=rho, none_at=none_at, cb_at=cb_at, e=e, e_vld=e_vld, vld=vld, npre=len(pre)))
+    if ydtype is not None:
+        tr['meta']['ydtype'] = str(ydtype)
     if degraded:
         tr['degraded'] = degraded
     if return_Y:
